@@ -138,8 +138,8 @@ def run_cell(cell, seed):
         x = util.make_input('randn', [cell['N'], cell['C']] + sp, seed + 11)
         ok, p = util.call_lib(f2, x)
         if ok and util.call_lib(i2, p)[0]:
-            f2.load_state_dict(c01.build(cell2).state_dict())
-            i2.load_state_dict(c10.build(cell2).state_dict())
+            util.reload_in_place(f2, c01.build(cell2))
+            util.reload_in_place(i2, c10.build(cell2))
             case = {'cell': cell2, 'check': 'reload: energy and inverse'}
             ok, p = util.call_lib(f2, x)
             ok2, r = util.call_lib(i2, p) if ok else (False, None)
